@@ -161,15 +161,18 @@ def norm_job(rs, as_, st, alias, tier, k=None, gq=0):
 
 def rot_vec_jobs(seed=0):
     J = []
-    R = [("znx_rotate_i64", "znx_rotate__c"), ("znx_rotate_inplace_i64", "znx_rotate_inplace__c"), K_REF["zero"]]
-    A = [("znx_automorphism_i64", "znx_automorphism__c"), ("znx_automorphism_inplace_i64", "znx_automorphism_inplace__c"), K_REF["zero"]]
+    # every element kernel has a contract at hand: if a change introduces a call to one that the function did not use
+    # before, the call is checked against that contract (frame!) instead of being a body-less havoc; contracts of
+    # functions that are not called are dropped by the runner ("Function to replace ... not found")
+    R = [("znx_rotate_i64", "znx_rotate__c"), ("znx_rotate_inplace_i64", "znx_rotate_inplace__c"), K_REF["zero"], K_REF["copy"], K_REF["negate"]]
+    A = [("znx_automorphism_i64", "znx_automorphism__c"), ("znx_automorphism_inplace_i64", "znx_automorphism_inplace__c"), K_REF["zero"], K_REF["copy"], K_REF["negate"]]
     for fn, contract, repl in (("vec_znx_rotate_ref", "vec_znx_rotate__c", R), ("vec_znx_automorphism_ref", "vec_znx_automorphism__c", A)):
         for n, sh in enumerate(QUICK2):
             for alias, tier in ((0, "quick"), (1, "quick")):
                 if alias == 1 and (sh[0] == 0 or sh[1] == 0):
                     continue
                 j = mk(fn, "arithmetic/vec_znx.c", contract, repl, (sh[0], sh[1], None), stride_pick(seed, 2, n + alias), alias, tier,
-                       ["C09", "C08", "C13", "C11", "C18"])
+                       ["C09", "C08", "C13", "C11", "C18", "C12"])
                 j.harness = "vec_rot.c"
                 j.cbmc_flags = j.cbmc_flags + ["--no-signed-overflow-check"]
                 j.bound_note += "; in-place kernel contract assumed (bounded S4 evidence)"
